@@ -198,7 +198,8 @@ def r04_1(ctx, fx):
         ctx.ob("R04.1", "read_payload_size/NotEnoughBytes-only-if-len<max_len", bool(lt) and all(n not in fn.reach([fn.entry], cut=lt) for n in neb), site=fn.site(neb[0]) if neb else fn.site(fn.entry), cfg=fx.cfg,
                detail="with len == max_len and no terminating byte the answer must be Overflow: the caller's size buffer holds exactly max_len bytes")
         il = fn.calls(r"unsigned_varint::decode::is_last$")
-        oks = [n for n, sh in fn.exits(r"^Ok") if any(s.startswith("Ok") for s in sh)]
+        # every exit that is not provably an Err (an `Ok(..)` literal, or the decoder's own Result handed on through map / map_err)
+        oks = [n for n, sh in fn.exits() if not all(s.startswith("Err") for s in sh)]
         ok = bool(il) and all(any(fn.only_via(n, sw, [t]) for sw, t, f in fn.bool_tests(il[0].dest[0])) for n in oks) and bool(oks)
         ctx.ob("R04.1", "read_payload_size/Ok-only-after-is_last", ok, site=fn.site(fn.entry), cfg=fx.cfg)
 
